@@ -1142,3 +1142,30 @@ def fill_ranges(chk, ctx):
                    + ("runs to the end of the dimension" if ok_hi else f"ends at {ast.unparse(hi)}, the dimension has {ast.unparse(size)} entries")
                    + ("" if ok_lo else f"; starts at {lo_c}, the first entry after the borders is {bmax + 1}"),
                    rel=rel, node=loop, nontrivial=False)
+    # no negative index: inside a loop `for v in range(lo, ..)` with a constant start, an index `v - c` needs lo >= c
+    # (a negative index silently wraps around to the other end of the list)
+    k = 0
+    for tname in ("get_hopt_table", "get_opt_0_table", "get_opt_inf_table"):
+        try:
+            relx, fx = [(r_, f_) for r_, q_, f_ in repo.all_functions() if q_ == tname][0]
+        except IndexError:
+            continue
+        for loop in [n for n in ast.walk(fx) if isinstance(n, ast.For) and isinstance(n.target, ast.Name) and isinstance(n.iter, ast.Call)
+                     and getattr(n.iter.func, "id", None) == "range" and len(n.iter.args) >= 1]:
+            lo = loop.iter.args[0] if len(loop.iter.args) >= 2 else ast.Constant(0)
+            if not (isinstance(lo, ast.Constant) and isinstance(lo.value, int)):
+                continue
+            v = loop.target.id
+            need = 0
+            site = None
+            for x in ast.walk(loop):
+                if isinstance(x, ast.Subscript) and isinstance(x.slice, ast.BinOp) and isinstance(x.slice.op, ast.Sub) \
+                        and isinstance(x.slice.left, ast.Name) and x.slice.left.id == v and isinstance(x.slice.right, ast.Constant) \
+                        and isinstance(x.slice.right.value, int) and x.slice.right.value > need:
+                    need, site = x.slice.right.value, x
+            if need:
+                chk.decide("C07.TABLE", f"{relx[:-3].replace('/', '.')}.{tname}#index-nonneg[{k}]({v})", True if lo.value >= need else False,
+                           f"`for {v} in {ast.unparse(loop.iter)}` reads `{ast.unparse(site)}`: "
+                           + ("never negative" if lo.value >= need else f"for {v} = {lo.value} the index is negative and wraps around"),
+                           rel=relx, node=loop, nontrivial=False)
+                k += 1
